@@ -34,7 +34,7 @@ SCALARS = {
     "long long": "long long", "unsigned long long": "unsigned long long",
     "double": "double", "float": "float", "void": "void", "size_t": "size_t",
     "std::size_t": "size_t", "ptrdiff_t": "ptrdiff_t", "std::ptrdiff_t": "ptrdiff_t",
-    "uintptr_t": "uintptr_t", "uint64_t": "uint64_t", "std::nullptr_t": "ref",
+    "uintptr_t": "size_t", "uint64_t": "size_t", "std::nullptr_t": "ref",
     "std::vector::size_type": "size_t", "std::basic_string<char>::size_type": "size_t",
 }
 
@@ -56,6 +56,9 @@ def _strip(t):
             if t.endswith(suf):
                 t = t[:-len(suf)].strip()
                 changed = True
+        if t.endswith("*const"):
+            t = t[:-5].strip()
+            changed = True
     return t
 
 
@@ -87,6 +90,8 @@ class Types:
         self.used = {}        # C type name -> declaration macro line
         self.elem = {}        # container C type -> element C type (maps: the pair type)
         self.enums = {}       # qualified enum name -> True
+        self.aliases = {}     # alias name (unqualified and libcellml::-qualified) -> aliased type spelling
+        self.records = set()  # names of libCellML records, with and without the namespace
 
     def is_ref_or_ptr(self, t):
         t = _strip(t)
@@ -127,13 +132,17 @@ class Types:
             return self.STR
         if t.endswith("*"):
             inner = _strip(t[:-1])
-            if inner.startswith("libcellml::"):
+            if inner.startswith("libcellml::") and inner not in self.aliases:
+                return "ref"
+            if inner in self.records:
+                return "ref"
+            if re.match(r"std::(__)?shared_ptr<.*>::element_type$", inner):
                 return "ref"
             ic = self._ctype(inner)
             return None if ic is None else ic + " *"
         head, args = split_targs(t)
         if head in ("std::shared_ptr", "std::weak_ptr", "std::__shared_ptr", "std::__weak_ptr",
-                    "std::enable_shared_from_this") and args:
+                    "std::enable_shared_from_this", "std::__shared_ptr_access") and args:
             return "ref"
         if head in ("std::vector",) and args:
             e = self._ctype(args[0])
@@ -176,11 +185,23 @@ class Types:
                 return None
             return self._inst_iter(cc)
         if head in ("std::_Rb_tree_const_iterator", "std::_Rb_tree_iterator", "std::__detail::_Node_iterator",
-                    "std::__detail::_Node_const_iterator"):
-            return None     # resolved through the sugared spelling (Container::iterator)
+                    "std::__detail::_Node_const_iterator") and args:
+            # `auto it = m.find(k)`: the sugar is gone; pair<const K, V> nodes belong to a map
+            ph, pa = split_targs(_strip(args[0]))
+            if ph == "std::pair" and len(pa) == 2 and pa[0].strip().startswith("const "):
+                cc = self._ctype("std::map<%s, %s>" % (_strip(pa[0]), pa[1]))
+            else:
+                cc = self._ctype("std::set<%s>" % args[0])
+            if cc is None:
+                return None
+            return self._inst_iter(cc)
+        if t in self.aliases:
+            return self._ctype(self.aliases[t])
         if t.startswith("libcellml::"):
             if t in self.enums:
                 return "int"
+            if t[len("libcellml::"):] in self.aliases:
+                return self._ctype(self.aliases[t[len("libcellml::"):]])
             return None
         return None
 
@@ -248,8 +269,16 @@ class Unit:
             if s:
                 q = s.split("(")[0].replace("[abi:cxx11]", "")
                 self.overloads.setdefault(q, set()).add(norm_sig(s))
+        for q in tu.records.values():
+            self.types.records.add(q)
+            if q.startswith("libcellml::"):
+                self.types.records.add(q[len("libcellml::"):])
         for d in tu.decls:
             self._collect_enums(d, ["libcellml"])
+            if d.get("kind") in ("TypeAliasDecl", "TypedefDecl") and d.get("name"):
+                ty = d.get("type", {})
+                self.types.aliases.setdefault(d["name"], ty.get("desugaredQualType") or ty.get("qualType"))
+                self.types.aliases.setdefault("libcellml::" + d["name"], ty.get("desugaredQualType") or ty.get("qualType"))
             if d.get("kind") == "VarDecl" and d.get("name"):
                 d["_global"] = True
                 self.global_decls.setdefault(d["name"], d)
@@ -917,6 +946,9 @@ class FunctionLowerer:
         sct = self.T.ctype(sub["type"])
         if ct == sct == "ref":
             return self.expr(sub)
+        if sct == "ref" and ct in ("size_t", "uintptr_t", "uint64_t", "unsigned long long", "long"):
+            # the address of an object: an injective, otherwise arbitrary map from object ids
+            return "((%s)ADDR_OF(%s))" % (ct, self.expr(sub))
         return "((%s)%s)" % (ct, self.paren(sub))
 
     def e_CXXConstCastExpr(self, n):
@@ -983,6 +1015,15 @@ class FunctionLowerer:
         base = n["inner"][0]
         fd = self.find_decl(n.get("referencedMemberDecl"))
         if fd is None:
+            # a member of a std:: aggregate (std::pair): the record is outside the filtered dump
+            bq = _strip(self.T.qt(base["type"]))
+            if n.get("isArrow") and bq.endswith("*"):
+                bq = _strip(bq[:-1])
+            bct = self.T._ctype(bq)
+            if bct is not None and bct.startswith("vpair_") and n["name"] in ("first", "second"):
+                if n.get("isArrow"):
+                    return "%s->%s" % (self.paren(base), n["name"])
+                return "%s.%s" % (self.paren(base), n["name"])
             self.bad(n, "member decl not found")
         if fd.get("kind") == "FieldDecl":
             bct = self.T._ctype(self.T.qt(base["type"]))
@@ -1149,6 +1190,10 @@ class FunctionLowerer:
         if name == "make_pair":
             ct = self.T.ctype(n["type"])
             return "((%s){%s, %s})" % (ct, self.expr(args[0]), self.expr(args[1]))
+        if name == "swap" and len(args) == 2:
+            ct = self.T.ctype(args[0]["type"])
+            t = self.newtmp("swap")
+            return "({ %s %s = %s; %s = %s; %s = %s; })" % (ct, t, self.lvalue(args[0]), self.lvalue(args[0]), self.lvalue(args[1]), self.lvalue(args[1]), t)
         if name in ("min", "max"):
             return "STD_%s(%s, %s)" % (name.upper(), self.expr(args[0]), self.expr(args[1]))
         if name == "find":
@@ -1285,6 +1330,9 @@ class FunctionLowerer:
         if ot.startswith("libcellml::") or (md is not None and md.get("_sig", "").startswith("libcellml::")):
             return self.cellml_method(n, me, obj, name, md, args)
         oct_ = self.T.ctype(obj["type"])
+        if me.get("isArrow") and oct_.endswith(" *"):
+            # it->member(): the object is what the pointer (from operator->) designates
+            return self.std_method(n, oct_[:-2], obj, name, args, me, deref=True)
         return self.std_method(n, oct_, obj, name, args, me)
 
     def cellml_method(self, n, me, obj, name, md, args):
@@ -1315,9 +1363,26 @@ class FunctionLowerer:
     def overrides_virtual(self, md):
         return md.get("name", "").startswith("do") and md.get("name", "")[2:3].isupper()
 
-    def std_method(self, n, oct_, obj, name, args, me):
+    def std_method(self, n, oct_, obj, name, args, me, deref=False):
         a = [x for x in args if x.get("kind") != "CXXDefaultArgExpr"]
         av = [self.expr(x) for x in a]
+        if oct_ == "ref":
+            oq = _strip(self.T.qt(obj["type"]))
+            weak = "weak_ptr" in oq or "WeakPtr" in oq
+            oe = "(*%s)" % self.expr(obj) if deref else self.expr(obj)
+            if name == "get" and not weak:
+                return oe
+            if name == "lock" and weak:
+                return "WEAK_LOCK(%s)" % oe
+            if name == "expired" and weak:
+                return "(WEAK_LOCK(%s) == 0)" % oe
+            if name == "reset" and not a:
+                return "%s = (ref)0" % oe
+            self.bad(n, "smart pointer member %s (weak=%s)" % (name, weak))
+        if deref:
+            call = "%s_%s(%s%s)" % (oct_, name, self.expr(obj), "".join(", " + v for v in av))
+            self.note_call("std::%s::%s" % (oct_, name))
+            return "(*%s)" % call if name in ("at", "operator[]", "front", "back") else call
         lv = self.lvalue_or_none(obj)
         fn = "%s_%s" % (oct_, name)
         if oct_ != self.T.STR and name in ("erase", "insert"):
@@ -1354,6 +1419,8 @@ class FunctionLowerer:
         op = (callee.get("referencedDecl") or {}).get("name", "")
         a0t = self.T.ctype(args[0]["type"]) if args else None
         if op == "operator->":
+            if a0t.startswith("vit_"):
+                return "%s_ptr(%s)" % (a0t, self.expr(args[0]))
             return self.expr(args[0])
         if op == "operator*" and len(args) == 1:
             if a0t == "ref":
@@ -1418,7 +1485,9 @@ def ea_names(extra_params):
 
 
 def _ret_of(fn_type):
-    """'bool (const std::string &) const' -> 'bool'"""
+    """'bool (const std::string &) const' -> 'bool'; 'auto (T) const -> bool' -> 'bool'"""
+    if fn_type.startswith("auto (") and "->" in fn_type:
+        return fn_type.rsplit("->", 1)[1].strip()
     depth = 0
     for i, ch in enumerate(fn_type):
         if ch == "<":
